@@ -97,20 +97,28 @@ func fullStackRound(r *vk.Run, rng *rand.Rand, id int) {
 		}
 		database := world.NewMemDS(world.NewImage())
 		metrics, _ := single.NopMetrics()
+		// the node is built under one context and run under another (as the repository's own helpers do): only the
+		// run context is cancelled by the stop request; the build context ends after Run has returned
+		buildCtx, buildCancel := context.WithCancel(context.Background())
 		ctx, cancel := context.WithCancel(context.Background())
-		seq, err := single.NewSequencerWithQueueSize(ctx, logger, database, da, []byte("verif-chain"), time.Second, metrics, aggregator, 100)
+		if id%4 >= 2 {
+			buildCtx = ctx
+		}
+		seq, err := single.NewSequencerWithQueueSize(buildCtx, logger, database, da, []byte("verif-chain"), time.Second, metrics, aggregator, 100)
 		if err != nil {
 			cancel()
+			buildCancel()
 			return nil, cfg, nil, err
 		}
 		var sg = keys.Signer
-		n, err := node.NewNode(ctx, cfg, exec, seq, da, sg, p2pClient, gen, database, node.DefaultMetricsProvider(config.DefaultInstrumentationConfig()), logger, node.NodeOptions{})
+		n, err := node.NewNode(buildCtx, cfg, exec, seq, da, sg, p2pClient, gen, database, node.DefaultMetricsProvider(config.DefaultInstrumentationConfig()), logger, node.NodeOptions{})
 		if err != nil {
 			cancel()
+			buildCancel()
 			return nil, cfg, nil, err
 		}
 		sn := &stackNode{fn: n.(*node.FullNode), cancel: cancel, done: make(chan error, 1), exec: exec}
-		go func() { sn.done <- sn.fn.Run(ctx) }()
+		go func() { err := sn.fn.Run(ctx); buildCancel(); sn.done <- err }()
 		return sn, cfg, nk, nil
 	}
 	agg, aggCfg, aggKey, err := start(true, "", "agg")
@@ -157,8 +165,8 @@ func fullStackRound(r *vk.Run, rng *rand.Rand, id int) {
 		}
 		agg.exec.BlockCalls(true)
 		for time.Now().Before(deadline) {
-			if e, f := agg.exec.InFlight(); e > 0 && f > 0 {
-				r.Count("fullstack_stop_with_exec_and_final_in_flight", 1)
+			if e, f := agg.exec.InFlight(); e > 0 && f > 0 && agg.exec.InFlightGetTxs() > 0 {
+				r.Count("fullstack_stop_with_exec_final_and_gettxs_in_flight", 1)
 				break
 			}
 			time.Sleep(time.Millisecond)
